@@ -18,6 +18,43 @@ def run_body(ex, n, st):
     return cont, leave
 
 
+def _names(nodes, ctx=None):
+    out = set()
+    for nd in nodes:
+        for x in ast.walk(nd):
+            if isinstance(x, ast.Name) and (ctx is None or isinstance(x.ctx, ctx)):
+                out.add(x.id)
+    return out
+
+
+def search_loop_as_any(ex, n, st):
+    """`for T in XS: if COND: S...; break|return` is, statement for statement, `if any(COND for T in XS): S...` -- provided S does not mention T and
+    T is not read after the loop (a generator expression does not leak its variable).  Returns the rewritten statement or None."""
+    if len(n.body) != 1 or not isinstance(n.body[0], ast.If) or n.body[0].orelse or not n.body[0].body:
+        return None
+    iff = n.body[0]; last = iff.body[-1]
+    if not isinstance(last, (ast.Break, ast.Return)):
+        return None
+    inner = iff.body[:-1] if isinstance(last, ast.Break) else iff.body
+    if any(isinstance(x, (ast.Break, ast.Continue, ast.Yield, ast.YieldFrom, ast.Await)) for nd in inner for x in ast.walk(nd)):
+        return None
+    tnames = _names([n.target])
+    if tnames & _names(inner):
+        return None
+    fn = st.ctx[2] if getattr(st, 'ctx', None) else None
+    if fn is not None:
+        # T must not be read anywhere outside this loop
+        outside = [x for x in ast.walk(fn) if isinstance(x, ast.Name) and x.id in tnames and isinstance(x.ctx, ast.Load)
+                   and not (n.lineno <= x.lineno <= getattr(n, 'end_lineno', n.lineno))]
+        if outside:
+            return None
+    gen = ast.GeneratorExp(elt=iff.test, generators=[ast.comprehension(target=n.target, iter=ast.Name(id='__loop_iterable', ctx=ast.Load()), ifs=[], is_async=0)])
+    call = ast.Call(func=ast.Name(id='any', ctx=ast.Load()), args=[gen], keywords=[])
+    new = ast.If(test=call, body=inner or [ast.Pass()], orelse=[])
+    ast.copy_location(new, n); ast.fix_missing_locations(new)
+    return new
+
+
 def do_for(ex, n, st):
     if n.orelse:
         raise Unsupported('for-else')
@@ -31,6 +68,12 @@ def do_for(ex, n, st):
             outs += cut_for(ex, n, s0, sp); continue
         spine = ex.spine(s0, itv)
         if spine is None:
+            alt = search_loop_as_any(ex, n, s0)
+            if alt is not None:
+                # exact desugaring (same evaluation order, same short-circuit): the spec's summary of any(...) applies; the iterable has been
+                # evaluated once already in s0, the rewritten statement names it through a fresh local
+                s0.setvar('__loop_iterable', itv)
+                outs += ex.block([alt], s0); continue
             raise Unsupported('for loop over a symbolic sequence without an invariant: line %d' % n.lineno)
         states = [s0]
         for x in spine:
